@@ -27,7 +27,7 @@ MEMORY_CARD_SLOT_END = 0x4FFFF
 
 
 def _is_lcd_region(address: int) -> bool:
-    return 0x2000 <= address <= 0x200F or 0xA000 <= address <= 0xAFFF
+    return 0x2000 <= address <= 0x2FFF or 0xA000 <= address <= 0xAFFF
 
 
 def _trace_lcd_write(
@@ -920,7 +920,7 @@ class PCE500Memory:
         self.add_overlay(
             MemoryOverlay(
                 start=0x2000,
-                end=0x200F,
+                end=0x2FFF,
                 name="lcd_controller_low",
                 read_only=False,
                 read_handler=lambda addr, pc: lcd_controller.read(addr, pc),
